@@ -39,6 +39,8 @@ def run(chk):
         frac_kernel(chk, it)
         for n in ((1, 2) if chk.tier == 'quick' else (1, 2, 3)):
             swap_settlement(chk, it, n)
+        for n in ((1, 2) if chk.tier == 'quick' else (1, 2, 3)):
+            withdraw_settlement(chk, it, n)
     finally:
         BM.CONFIG['symbolic_ops'] = False
         it.arith_feasibility = False
@@ -145,8 +147,67 @@ def swap_many_contract(itp, st, args, ctx):
     return outs
 
 
+def deposit_contract(itp, st, args, ctx):
+    from mirsym.summaries import deref, ite_st
+    ps = deref(itp, st, args[0])
+    L, R, PA, LQ = ps.fields
+    dl, dr = args[1], args[2]
+    outs = []
+    empty = simp(LQ == 0)
+    region = simp(z3.Or(LQ == 0, z3.And(z3.UGE(L, 1), z3.UGE(R, 1), z3.ULE(L, CAP), z3.ULE(R, CAP), z3.ULE(LQ, CAP))))
+    amounts = simp(z3.And(z3.ULT(dl, CAP), z3.ULT(dr, CAP)))
+    ok = simp(z3.And(region, amounts))
+    if not z3.is_true(ok) and itp.feasible(st, z3.Not(ok)):
+        f = st.fork()
+        f.assume(z3.Not(ok))
+        outs.append((f, Panic('deposit outside the region its contract is proven for', ctx.fn.name)))
+    if z3.is_true(ok) or itp.feasible(st, ok):
+        st.assume(ok)
+        delta = _fresh_u128('deposit_delta')
+        # existing pool: delta^2 * L * R <= liqs^2 * lefts * rights (minted in proportion, rounded down)
+        G.add(z3.Implies(z3.And(ok, LQ != 0), I(delta) * I(delta) * I(L) * I(R) <= I(LQ) * I(LQ) * I(dl) * I(dr)))
+        new_existing = [L + dl, R + dr, PA, sat_add(LQ, delta)]
+        new_first = [dl, dr, PA, dl]
+        fields = [z3.If(empty, a, b) for a, b in zip(new_first, new_existing)]
+        ret = z3.If(empty, dl, delta)
+        itp.store(st, args[0], Agg(ps.ty, [simp(x) for x in fields]))
+        st.events.append(('deposit', {'L': L, 'R': R, 'LQ': LQ, 'dl': dl, 'dr': dr, 'ret': ret, 'delta': delta}))
+        outs.append((st, Ret(simp(ret))))
+    return outs
+
+
+def withdraw_contract(itp, st, args, ctx):
+    from mirsym.summaries import deref
+    ps = deref(itp, st, args[0])
+    L, R, PA, LQ = ps.fields
+    w = args[1]
+    outs = []
+    region = simp(z3.And(z3.UGE(L, 1), z3.UGE(R, 1), z3.ULE(L, CAP), z3.ULE(R, CAP), z3.UGE(LQ, 1), z3.ULE(LQ, CAP)))
+    ok = simp(z3.And(region, z3.ULE(w, LQ)))
+    if not z3.is_true(ok) and itp.feasible(st, z3.Not(ok)):
+        f = st.fork()
+        f.assume(z3.Not(ok))
+        outs.append((f, Panic('withdraw of more liquidity than the pool records (assertion failed: self.liqs >= liqs), or outside the proven region',
+                              ctx.fn.name)))
+    if z3.is_true(ok) or itp.feasible(st, ok):
+        st.assume(ok)
+        lo, ro = _fresh_u128('withdraw_lefts'), _fresh_u128('withdraw_rights')
+        allout = w == LQ
+        G.add(z3.Implies(z3.And(ok, z3.Not(allout)),
+                         z3.And(I(lo) * I(LQ) <= I(L) * I(w), (I(lo) + 1) * I(LQ) > I(L) * I(w),
+                                I(ro) * I(LQ) <= I(R) * I(w), (I(ro) + 1) * I(LQ) > I(R) * I(w), z3.ULT(lo, L), z3.ULT(ro, R))))
+        G.add(z3.Implies(z3.And(ok, allout), z3.And(lo == L, ro == R)))
+        itp.store(st, args[0], Agg(ps.ty, [L - lo, R - ro, PA, LQ - w]))
+        st.events.append(('withdraw', {'L': L, 'R': R, 'LQ': LQ, 'w': w, 'lo': lo, 'ro': ro}))
+        outs.append((st, Ret(Agg('tuple', [lo, ro]))))
+    return outs
+
+
 def install_pool_contracts(it):
-    added = [(re.compile(r'PoolState::swap_many$|melswap::<impl at [^>]*>::swap_many$'), swap_many_contract)]
+    added = [(re.compile(r'PoolState::swap_many$|melswap::<impl at [^>]*>::swap_many$'), swap_many_contract),
+             (re.compile(r'PoolState::deposit$|melswap::<impl at [^>]*>::deposit$'), deposit_contract),
+             (re.compile(r'PoolState::withdraw$|melswap::<impl at [^>]*>::withdraw$'), withdraw_contract),
+             (re.compile(r'PoolKey::liq_token_denom$'), liq_token_override)]
     it.overrides = added + list(it.overrides)
     return added
 
@@ -303,6 +364,180 @@ def swap_settlement(chk, it, n, mode='func'):
     it.base_read_hooks.pop('pools', None)
 
 
+def _settlement_setup(chk, it, n, n_outs, first_denom_of_pool=None):
+    G.reset()
+    G.atomic_domains = {'single:Transaction'}
+    st = State()
+    state, sterms, pk = sym_pool_setup(chk, it, st)
+    txs, tts = [], []
+    for i in range(n):
+        tx, tt = B.sym_tx('tx' + 'abc'[i], 1, n_outs, 1, st.pc)
+        txs.append(tx)
+        tts.append(tt)
+        for j in range(n_outs):
+            st.pc.append(z3.ULE(tt['out%d_value' % j], MAX_COINVAL))
+    hs = [B.tx_hash_term(it, st, tx) for tx in txs]
+    for i in range(n):
+        for j in range(i + 1, n):
+            G.declare_distinct(hs[i], hs[j])
+    return st, state, sterms, pk, txs, tts, hs
+
+
+def _one_event(s, name):
+    calls = [e[1] for e in s.events if e[0] == name] + [e[2][1] for e in s.events if e[0] == 'when' and e[2][0] == name]
+    if len(calls) != 1:
+        raise Inconclusive('expected exactly one %s per pool settlement, saw %d' % (name, len(calls)))
+    return calls[0]
+
+
+def withdraw_settlement(chk, it, n, mode='func'):
+    st, state, sterms, pk, txs, tts, hs = _settlement_setup(chk, it, n, 1)
+    liq = liq_denom(st, pk)
+    for tx in txs:
+        st.pc.append(val_eq(tx.fields[2].fields[0].fields[2], liq))  # selector: the burnt coin is the pool's liquidity token
+    pools0 = state.fields[9].fields[0].data
+    before = pool_entry(it, st, pools0, pk)
+    st.pc.append(before.data.present)
+    L, R, PA, LQ = before.data.value.fields
+    vals = [tt['out0_value'] for tt in tts]
+    total = z3.Sum([I(v) for v in vals]) if n > 1 else I(vals[0])
+    scell = st.alloc(state)
+    vcell = st.alloc(Agg('Vec', txs))
+    fn = it.by_last['process_withdrawals_for_single_pool'][0]
+    added = install_pool_contracts(it)
+    try:
+        outs = it.exec_fn(st, fn, [Ptr(st.alloc(pk)), Ptr(scell), Ptr(vcell)])
+    finally:
+        it.overrides = [o for o in it.overrides if o not in added]
+    inputs = {'pool_lefts': L, 'pool_rights': R, 'pool_liqs': LQ, 'height': sterms['height']}
+    for i, v in enumerate(vals):
+        inputs['burn%d_value' % i] = v
+    k = 0
+    cov = []
+    for idx, (s, o) in enumerate(outs):
+        name = 'process_withdrawals_for_single_pool/%dreq/%d' % (n, idx)
+        rp = lambda mo: replay_withdrawals(chk, mo, inputs, n)
+        if isinstance(o, Panic):
+            if mode == 'panic':
+                # the tokens in circulation are backed: what is burnt in one block never exceeds the recorded liquidity
+                chk.obligation('PANIC/' + name, list(s.pc) + [total <= I(LQ)], z3.BoolVal(False), inputs, replay=rp, kind='PANIC',
+                               describe=str(o), bound='%d withdrawal(s); burnt total <= recorded liquidity (backing invariant, C16)' % n,
+                               arith='int')
+            continue
+        k += 1
+        if mode == 'panic':
+            continue
+        c = _one_event(s, 'withdraw')
+        post_state = s.heap[scell]
+        after = pool_entry(it, s, post_state.fields[9].fields[0].data, pk)
+        L2, R2, PA2, LQ2 = after.data.value.fields
+        pcs = list(s.pc)
+        chk.obligation('FUNC/pool-is-updated-by-one-withdraw-of-the-total/' + name, pcs,
+                       z3.And(after.data.present, c['L'] == L, c['R'] == R, c['LQ'] == LQ, I(c['w']) == total,
+                              L2 == L - c['lo'], R2 == R - c['ro'], LQ2 == LQ - c['w']), inputs, replay=rp, arith='int',
+                       bound='burns the sum of the requests; reserves shrink by what withdraw pays out')
+        lo, ro, w = I(c['lo']), I(c['ro']), I(c['w'])
+        new_txs = s.heap[vcell].fields
+        coins1 = post_state.fields[3].fields[0].data
+        sum_l, sum_r = z3.IntVal(0), z3.IntVal(0)
+        for i, (tx0, tx1) in enumerate(zip(txs, new_txs)):
+            o0 = tx0.fields[2].fields[0]
+            v0 = I(o0.fields[1].fields[0])
+            p0, c0 = B.coin_lookup(it, s, coins1, hs[i], bv(0, 8))
+            p1, c1 = B.coin_lookup(it, s, coins1, hs[i], bv(1, 8))
+            cd0, cd1 = c0.fields[0], c1.fields[0]
+            a0, a1 = I(cd0.fields[1].fields[0]), I(cd1.fields[1].fields[0])
+            chk.obligation('FUNC/request-%d-is-paid-in-both-denominations-of-its-pool/%s' % (i, name), pcs,
+                           z3.And(p0, p1, val_eq(cd0.fields[2], pk.fields[0]), val_eq(cd1.fields[2], pk.fields[1]),
+                                  val_eq(cd0.fields[0], o0.fields[0]), val_eq(cd1.fields[0], o0.fields[0]),
+                                  val_eq(cd0.fields[3], o0.fields[3]), val_eq(cd1.fields[3], o0.fields[3]),
+                                  c0.fields[1].fields[0] == sterms['height'], c1.fields[1].fields[0] == sterms['height']),
+                           inputs, replay=rp, arith='int', bound='coins (txhash, 0) and (txhash, 1), same owner and data, block height')
+            chk.obligation('FUNC/request-%d-gets-its-pro-rata-share-rounded-down/%s' % (i, name), pcs + [w > 0],
+                           z3.And(a0 * w <= lo * v0, z3.Implies(a0 < MAXU, (a0 + 1) * w > lo * v0),
+                                  a1 * w <= ro * v0, z3.Implies(a1 < MAXU, (a1 + 1) * w > ro * v0)), inputs, replay=rp, arith='int',
+                           bound='floor(payout * own liquidity / total liquidity burnt) on each side')
+            sum_l, sum_r = sum_l + a0, sum_r + a1
+        chk.obligation('FUNC/coins-receive-no-more-than-left-the-pool/' + name, pcs + [w > 0], z3.And(sum_l <= lo, sum_r <= ro), inputs,
+                       replay=rp, arith='int')
+        cov.append(pcs + [w > 1000, lo > 5])
+    if not k:
+        raise Inconclusive('process_withdrawals_for_single_pool has no returning path')
+    if mode == 'func':
+        _cover_any_int(chk, 'withdrawal with a non-trivial payout/%dreq' % n, cov)
+    it.base_read_hooks.pop('pools', None)
+
+
+def _cover_any_int(chk, name, alternatives):
+    why = []
+    for c in alternatives:
+        res, payload, _ = chk.solve_int(c)
+        if res == 'sat':
+            chk.covers.append({'id': name, 'reachable': True})
+            return
+        why.append('%s: %s' % (res, str(payload)[:100]))
+    chk.covers.append({'id': name, 'reachable': False})
+    raise Inconclusive('vacuity guard %s is not reachable (%s)' % (name, why[:3]))
+
+
+def ref_withdrawals(L, R, Q, burns):
+    w = sum(burns)
+    if w > Q:
+        return 'panic-by-design'
+    if Q - w == 0:
+        lo, ro = L, R
+    else:
+        lo, ro = (L * w) // Q, (R * w) // Q
+    outs = [((lo * v) // w if w else 0, (ro * v) // w if w else 0) for v in burns]
+    return outs, L - lo, R - ro, Q - w
+
+
+def replay_withdrawals(chk, model, inputs, n):
+    ev = lambda t: harness.model_int(model, t)
+    L, R, Q = max(ev(inputs['pool_lefts']), 1), max(ev(inputs['pool_rights']), 1), max(ev(inputs['pool_liqs']), 1)
+    burns = [ev(inputs['burn%d_value' % i]) for i in range(n)]
+    return run_withdraw_scenario(L, R, Q, burns)
+
+
+def run_withdraw_scenario(L, R, Q, burns, kind=0x53):
+    raw = lambda k: {'txhash': {'hex': ('%02x' % k) * 32}, 'index': 0}
+    coins, txs, probes = [], [], []
+    for i, v in enumerate(burns):
+        coins.append({'id': raw(0x21 + i), 'covhash': {'covhash_of': 'true'}, 'value': str(v), 'denom': 'LIQ:MEL/SYM', 'adata': '', 'height': 0})
+        coins.append({'id': raw(0x31 + i), 'covhash': {'covhash_of': 'true'}, 'value': '10', 'denom': 'MEL', 'adata': '', 'height': 0})
+        txs.append({'name': 'abc'[i], 'kind': kind, 'inputs': [raw(0x21 + i), raw(0x31 + i)], 'fee': '10', 'covenants': ['true'], 'data': '73',
+                    'outputs': [{'covhash': {'covhash_of': 'true'}, 'value': str(v), 'denom': 'LIQ:MEL/SYM', 'adata': '%02x' % i}]})
+        probes.append({'txhash': {'txhash_of': 'abc'[i]}, 'index': 0})
+        probes.append({'txhash': {'txhash_of': 'abc'[i]}, 'index': 1})
+    sc = {'kind': 'batch', 'network': 2, 'height': 5, 'fee_pool': '0', 'tips': '0', 'fee_multiplier': '0', 'dosc_speed': '1000000',
+          'coins': coins, 'txs': txs, 'probes': probes,
+          'pools': [{'left': 'MEL', 'right': 'SYM', 'lefts': str(L), 'rights': str(R), 'liqs': str(Q)}], 'melmint_only': 'withdrawals'}
+    out = harness.run_replay([sc], 'dev')[0]
+    if 'error' in out or 'unrealizable' in out:
+        raise Inconclusive('replay: %s' % out)
+    run = out['runs'][0]
+    if run.get('result') != 'Ok':
+        raise Inconclusive('replay: the withdrawal batch itself was rejected: %s' % run.get('result'))
+    mm = run.get('melmint', {})
+    ref = ref_withdrawals(L, R, Q, burns)
+    if mm.get('panicked'):
+        return ref != 'panic-by-design', sc, {'why': 'panic in process_withdrawals: ' + mm.get('msg', '')[-200:]}
+    if ref == 'panic-by-design':
+        return True, sc, {'why': 'more liquidity burnt than recorded, yet no panic', 'native': mm}
+    outs, L2, R2, Q2 = ref
+    got = mm.get('probes', [])
+    why = ''
+    for i, (a, b) in enumerate(outs):
+        g0, g1 = got[2 * i], got[2 * i + 1]
+        if g0 is None or g1 is None or g0['denom'] != 'MEL' or g1['denom'] != 'SYM' or int(g0['value']) != a or int(g1['value']) != b:
+            why = 'request %d: coins %s / %s, reference %d MEL / %d SYM' % (i, g0, g1, a, b)
+            break
+    pool = (mm.get('pools') or [{}])[0]
+    if not why and (int(pool.get('lefts', -1)), int(pool.get('rights', -1)), int(pool.get('liqs', -1))) != (L2, R2, Q2):
+        why = 'pool %s, reference %d/%d/%d' % (pool, L2, R2, Q2)
+    return bool(why), sc, {'why': why or 'consistent with the reference', 'native': mm}
+
+
 def ref_swaps(L, R, reqs):
     """reqs: [(value, pays_left)] -> ([payouts], L2, R2) by the documented formulas, exact integers"""
     tl = sum(v for v, lf in reqs if lf)
@@ -373,6 +608,119 @@ def run_swap_scenario(L, R, reqs, kind=0x51):
 # ---------------------------------------------------------------------------------------------------------------
 
 
+POOLKEY_PARSES = z3.Function('poolkey_parses', z3.BitVecSort(256), z3.BoolSort())
+
+
+def liq_denom(st, pk):
+    """the liquidity-token denomination of a pool: Custom(hash_keyed("liq", key bytes)), as an injective function of the key
+    (for canonical keys to_bytes is injective; the non-canonical spellings are the subject of `poolkey_kernel`)"""
+    return S.denom('Custom', M.hash_apply(st, 'keyed[liq]:PoolKey', M.flatten(pk)))
+
+
+def liq_token_override(itp, st, args, ctx):
+    from mirsym.summaries import deref
+    return liq_denom(st, deref(itp, st, args[0]))
+
+
+def _poolkey_of_bytes(st, bid, cache={}):
+    """PoolKey::from_bytes as a function of the data bytes: (parses, key) -- the same bytes always give the same key"""
+    k = bid.sexpr()
+    if k not in cache:
+        holder = M.State_for_symvalue()
+        pk = S.sym_value('PoolKey', 'parsed_key_%d' % len(cache), holder)
+        cache[k] = (pk, list(holder.pc))
+    pk, side = cache[k]
+    for c in side:
+        G.add(c)
+    return POOLKEY_PARSES(bid), pk
+
+
 def selectors(chk, it):
-    """get_{swap,deposit,withdrawal}_transactions::{closure#0}: which transactions become requests"""
-    pass
+    """get_{swap,deposit,withdrawal}_transactions::{closure#0}: which transactions of the block become requests.
+    PoolKey::from_bytes is an uninterpreted function of the data bytes here (its own kernel: `poolkey_kernel`)."""
+    from mirsym import melmodels as MM
+    from mirsym.summaries import deref
+    from mirsym.interp import mk_option
+
+    def from_bytes(itp, s_, args, ctx):
+        ok, pk = _poolkey_of_bytes(s_, MM.bytes_id(itp, s_, args[0]))
+        return mk_option(ok, pk)
+    added = [(re.compile(r'PoolKey::from_bytes$'), from_bytes), (re.compile(r'PoolKey::liq_token_denom$'), liq_token_override)]
+    it.overrides = added + list(it.overrides)
+    try:
+        for which, kind_name in (('swap', 'Swap'), ('deposit', 'LiqDeposit'), ('withdrawal', 'LiqWithdraw')):
+            for nout in (1, 2):
+                G.reset()
+                G.atomic_domains = {'single:Transaction'}
+                _poolkey_of_bytes.__defaults__[0].clear()
+                st = State()
+                state, sterms = B.sym_state(st.pc)
+                st.pc.append(z3.ULE(sterms['height'], 100_000_000))
+                tx, tt = B.sym_tx('tx', 1, nout, 1, st.pc)
+                fns = [f for n_, fs in it.funcs.items() if n_.startswith('get_%s_transactions::{closure#0}' % which) for f in fs]
+                if not fns:
+                    raise Inconclusive('selector closure of get_%s_transactions not found' % which)
+                fn = fns[0]
+                env = Ptr(st.alloc(Agg(fn.param_types[0].replace('&mut ', '').lstrip('&'), [Ptr(st.alloc(state))])))
+                outs = it.exec_fn(st, fn, [env, tx])
+                ok_parse, pk = _poolkey_of_bytes(st, tx.fields[5].data['id'])
+                pools0 = state.fields[9].fields[0].data
+                coins0 = state.fields[3].fields[0].data
+                txh = B.tx_hash_term(it, st, tx)
+                pool_there = pool_entry(it, st, pools0, pk).data.present
+                d = [o_.fields[2] for o_ in tx.fields[2].fields]
+                p0, _ = B.coin_lookup(it, st, coins0, txh, bv(0, 8))
+                inputs = {'kind': tt['kind'], 'n_outputs': bv(nout, 8)}
+                inputs.update(dict(('tx_' + k_, v_) for k_, v_ in tt.items()))
+                for idx, (s, o) in enumerate(outs):
+                    name = 'get_%s_transactions/%dout/%d' % (which, nout, idx)
+                    rp = lambda mo, which=which: replay_selector(chk, mo, inputs, which)
+                    if isinstance(o, Panic):
+                        continue  # panic freedom of the seal path is decided in C09
+                    sel = M.is_variant(o.v, 'Some')
+                    pcs = list(s.pc)
+                    chk.obligation('FUNC/selected-only-if-of-kind-%s/%s' % (kind_name, name), pcs + [sel], tt['kind'] == S.TXKINDS[kind_name],
+                                   inputs, replay=rp, bound='only transactions of the matching kind are settled')
+                    if which == 'swap':
+                        want = z3.And(ok_parse, pool_there, p0, z3.Or(val_eq(d[0], pk.fields[0]), val_eq(d[0], pk.fields[1])))
+                    elif which == 'deposit':
+                        want = z3.And(ok_parse, p0, val_eq(d[0], pk.fields[0]), val_eq(d[1], pk.fields[1])) if nout >= 2 else z3.BoolVal(False)
+                    else:
+                        want = z3.And(ok_parse, pool_there, p0, val_eq(d[0], liq_denom(s, pk))) if nout == 1 else z3.BoolVal(False)
+                    chk.obligation('FUNC/selected-only-if-the-data-names-a-pool-and-the-outputs-fit/%s' % name, pcs + [sel], want, inputs,
+                                   replay=rp, bound='data parses as a pool key; first output unspent; denominations are the pool sides')
+                    if 'Some' in o.v.payloads:
+                        chk.obligation('FRAME/selected-transaction-is-passed-on-unchanged/%s' % name, pcs + [sel],
+                                       val_eq(o.v.payloads['Some'][0], tx), inputs, replay=rp, kind='FRAME')
+    finally:
+        it.overrides = [o for o in it.overrides if o not in added]
+
+
+def replay_selector(chk, model, inputs, which):
+    """a transaction of the model's kind whose data names the MEL/SYM pool and whose outputs would fit a request of the
+    selector in question, sealed on a Custom02 chain: is its first output transformed?"""
+    ev = lambda t: harness.model_int(model, t)
+    kind = ev(inputs['kind'])
+    want_kind = {'swap': 0x51, 'deposit': 0x52, 'withdrawal': 0x53}[which]
+    if which != 'swap':
+        raise Inconclusive('no native scenario for the %s selector yet' % which)
+    kinds = [kind] if kind in (0x00, 0x51, 0x52, 0x53) else []
+    if kind != want_kind and 0x00 not in kinds:
+        kinds.append(0x00)  # kinds with validity rules of their own (Stake, DoscMint, Faucet): any other non-swap kind stands in
+    obs = None
+    for kk in kinds:
+        try:
+            bad, sc, obs = run_swap_scenario(10 ** 9, 10 ** 9, [(1000, True)], kind=kk)
+            kind = kk
+            break
+        except Inconclusive:
+            continue
+    if obs is None:
+        raise Inconclusive('no native scenario for a selector counterexample of kind %#x' % kind)
+    # run_swap_scenario judges against the settlement reference: for a non-swap kind "consistent with the reference" means the
+    # output WAS transformed although the transaction is not a swap
+    native = obs.get('native', {})
+    probe = (native.get('probes') or [None])[0]
+    transformed = probe is not None and probe.get('denom') == 'SYM'
+    violated = transformed and kind != want_kind
+    return violated, sc, {'kind': hex(kind), 'first_output_after_settlement': probe, 'transformed': transformed}
